@@ -170,7 +170,6 @@ var panicExceptions = map[string]string{
 	"getPatch|raw[\"spec\"].(map[string]interface{})":            "the codec always emits spec for a typed object: the JSON tag of Spec has a name and encoding/json writes struct-typed fields even with omitempty",
 	"getPatch|spec[\"template\"].(map[string]interface{})":       "the JSON tag of Template has no omitempty (checked by C18.1)",
 	"ApplyRevision|runtime.EncodeOrDie(patchCodec, clone)":       "encoding a typed, registered object with the package's own codec cannot fail",
-	"truncateHistory|history[:(historyLen - historyLimit)]": "0 <= historyLimit (the CRD validates spec.revisionHistoryLimit >= 0, checked by C15.1-crd-minimums) and historyLimit < historyLen == len(history) on this path (C13.2-only-beyond-limit)",
 	"getStatefulSetRevisions|updateRevision":                "assigned from newRevision/updateControllerRevision/createControllerRevision after their error was tested nil; each returns a non-nil revision with a nil error (NewControllerRevision always allocates; the API calls return the object)",
 	"NewControllerRevision|cr.Labels[ControllerRevisionHashLabel]": "cr is built three lines above with Labels: labelMap, a map made in this function",
 	"updateStatefulSet|firstUnhealthyPod#2": "scale-down wait: the target is a condemned pod that is neither terminating nor Running/Ready, so the first-unhealthy scan over the condemned pods counted it and (since fix D12) recorded a pod whenever none was recorded; the other dereference of this variable, under unhealthy > 0, is proven by the engine and guards the scan itself",
@@ -244,6 +243,22 @@ func runC15(c *Ctx) {
 	for _, fi := range scope {
 		var ctxs []panicCtx
 		fn, an := c.Analysis(fi)
+		// an admitted set has spec.replicas and spec.revisionHistoryLimit >= 0 (C15.1-crd-minimums)
+		if okr && mr >= 0 && okh && mh >= 0 {
+			var assume []*gf.Formula
+			for _, pn := range paramsOfType(fi, load.APIPkg, "StatefulSet") {
+				{
+					if pn.Name == "_" {
+						continue
+					}
+					assume = append(assume, gf.Or(c.Want(fn, fi.Decl.Body.Lbrace+1, "$1 == nil || $1.Spec.RevisionHistoryLimit == nil", pn), c.Want(fn, fi.Decl.Body.Lbrace+1, "*$1.Spec.RevisionHistoryLimit >= 0", pn)))
+					assume = append(assume, gf.Or(c.Want(fn, fi.Decl.Body.Lbrace+1, "$1 == nil || $1.Spec.Replicas == nil", pn), c.Want(fn, fi.Decl.Body.Lbrace+1, "*$1.Spec.Replicas >= 0", pn)))
+				}
+			}
+			if len(assume) > 0 {
+				an = fn.Analyze(gf.And(assume...))
+			}
+		}
 		ctxs = append(ctxs, panicCtx{fi, fi.Obj.Name(), fn, an, fi.Decl.Body, fi.Pkg.TypesInfo})
 		ast.Inspect(fi.Decl.Body, func(n ast.Node) bool {
 			if l, ok := n.(*ast.FuncLit); ok {
